@@ -88,15 +88,27 @@ class cview_trim_cols:
 
 
 # ================================================================================================================
-# CompositeCanvas.trim / trim_end / pad_trim_left_right: the REAL bodies against exactly the assumed canvas-protocol
-# contracts of contracts/proto_widget.py (cc_trim, cc_trim_end, cc_ptlr: clauses rows / cols / cnt / cursor), over
-# the real fields `shards`, `coords`, `_widget_info`.
+# CompositeCanvas.__init__ / cols / rows / trim / trim_end / pad_trim_left_right / pad_trim_top_bottom, SolidCanvas,
+# TextCanvas.__init__: the REAL bodies over the real fields (`shards`, `coords`, `_widget_info`, ...), registered as
+# `...#real-fields` aliases, against exactly the text of the assumed canvas-protocol contracts of
+# contracts/proto_widget.py that every container proof uses (cc_init, cc_trim, cc_trim_end, cc_ptlr, cc_pttb,
+# solid_init: clauses rows / cols / cnt / cursor / size), plus what the protocol's frame (`modifies`) says, plus
+# "the lists the canvas shares with the canvas it wraps are never written to", plus "a finalized canvas refuses".
 #
-# Stated abstraction of the shard list: an opaque value with two observers, rows_of (what CompositeCanvas.rows()
-# sums) and cols_of (what CompositeCanvas.cols() sums over the first shard); `[]` has 0 rows and 0 columns.  The
-# shard algebra (iterator-driven generators, outside the subset) is ASSUMED to act on the observers as its docstrings
-# say: shards_trim_top / shards_trim_rows / shards_trim_sides below.  The ghost clause `window` (top_off / left_off:
-# which part of the source is shown) is about content and stays with the bounded check of C02.
+# Stated abstraction of the shard list (below): explicit shards with their cview LIST OBJECTS + an unknown tail with
+# the observers len / rows / cols; `[]` has 0 rows and 0 columns.  The shard algebra (iterator-driven generators,
+# outside the subset) is ASSUMED to act on the observers as its docstrings say: shards_trim_top / shards_trim_rows /
+# shards_trim_sides below.  The ghost clause `window` (top_off / left_off: which part of the source is shown) is
+# about content and stays with the bounded check of C02.
+#
+# One place where the real code and the protocol's frame part: cc_trim / cc_trim_end / cc_pttb do not list `ncols`
+# under `modifies`, i.e. they promise cols() unchanged; a canvas trimmed down to no rows at all has shards == [] and
+# reports cols() == 0 (known finding C02-KF1-zero-row-composite-forgets-width, bounded part).  The clauses
+# `cols-kept-unless-no-row-is-kept` / `cols-kept-unless-no-row-is-left` below state what the code does, exactly;
+# the clause the statement asks for would be
+#     yield "cols-kept", cols_of(s.shards) == cols_of(old.shards, True)
+#     # FAILS-ON-TREE: CompositeCanvas(SolidCanvas("x", 3, 1)).trim(0, 0) / .trim_end(1) / .pad_trim_top_bottom(0, -1): cols() == 0
+# (not emitted: it is C02-KF1, and a failing deductive obligation here would turn C01 / C06 red as well).
 import z3  # noqa: E402
 
 from pyvc import shapes as S  # noqa: E402
@@ -106,30 +118,219 @@ from pyvc.values import SOpt  # noqa: E402
 from contracts import proto_widget as PW  # noqa: E402
 from urwid import canvas as _canvas  # noqa: E402
 
-for _k in ("Shards", "WidgetInfo", "PopUpData"):
+for _k in ("WidgetInfo", "PopUpData", "ShardTail"):
     if _k not in PROTOCOLS:
         PROTOCOLS[_k] = type(_k + "P", (Protocol,), {"kind": _k, "methods": {}})()
-_SH = S.opaque_sort("Shards")
-_ROWS = z3.Function("Shards.rows", _SH, z3.IntSort())
-_COLS = z3.Function("Shards.cols", _SH, z3.IntSort())
+
+# ---------------------------------------------------------------------------------------- the structured shard list
+# self.shards is a Python list of shards (num_rows, cviews): cviews a Python list of cview tuples.  The model keeps
+# Python's reference semantics for both levels of list (pyvc LRef: identity, in-place mutation seen by every alias):
+#   shard list value  =  explicit shards ... ++ [ unknown tail ] ++ explicit shards ...        (class ShardSeq)
+# an explicit shard is a pair (rows, LRef of a cview sequence of symbolic length); the unknown tail (class Rest) stands
+# for ZERO OR MORE further shards and is known only through three observers: how many shards, their total height,
+# and the width of the first of them (what CompositeCanvas.rows() / cols() compute).  Reading element 0 of a list that
+# starts with a non-empty tail spells the first shard of the tail out (Rest.unfold, memoised: every list that shares
+# the tail sees the SAME head cview list object, as in CPython where `[x] + shards[1:]` and `shards` share their
+# shard tuples).  Anything else about the tail (iteration, an element at a symbolic index) is Unsupported.
+_TAIL = S.opaque_sort("ShardTail")
+_T_N = z3.Function("ShardTail.len", _TAIL, z3.IntSort())
+_T_ROWS = z3.Function("ShardTail.rows", _TAIL, z3.IntSort())
+_T_COLS = z3.Function("ShardTail.cols", _TAIL, z3.IntSort())
+CVIEW_HELD = Tup(Int, Int, Nat, Nat, Opt(Opaque("AttrDict")), Opaque("LeafCanvas"))  # a cview inside a canvas: width, height >= 0
+
+
+def cviews_width(cvs, entry=False):
+    """sum(cv[2] for cv in cvs) -- what CompositeCanvas.cols() adds up over the first shard.  entry=True: of the
+    content the list object had when it was first seen (an in-place write later does not change the answer)."""
+    if entry and isinstance(cvs, LRef) and getattr(cvs, "entry_seq", None) is not None:
+        cvs = cvs.entry_seq
+    f = Q.seq_cpsum(cvs, 2)
+    if f is None:
+        raise Unsupported("width of a cview list without a prefix-sum model of its widths")
+    return f(Q.seq_len(cvs))
+
+
+class Rest:
+    """Zero or more shards that are not spelled out (see above)."""
+
+    def __init__(self, st, hint):
+        self.e = z3.Const(st.fresh_name(hint), _TAIL)
+        self.unfolded = None
+        st.assume(z3.And(_T_N(self.e) >= 0, _T_ROWS(self.e) >= 0, _T_COLS(self.e) >= 0))
+        st.assume(z3.Implies(_T_N(self.e) == 0, z3.And(_T_ROWS(self.e) == 0, _T_COLS(self.e) == 0)))  # no shards: sums over nothing
+
+    n = property(lambda self: V.mk_int(_T_N(self.e)))
+    rows = property(lambda self: V.mk_int(_T_ROWS(self.e)))
+    cols = property(lambda self: V.mk_int(_T_COLS(self.e)))
+
+    def unfold(self):
+        """(first shard, rest of the tail).  ONLY on a path where self.n > 0 has been established (the defining
+        equations below would otherwise cut the path)."""
+        if self.unfolded is None:
+            st = cur()
+            r = st.fresh_int("shard_rows")
+            cv = ListOf(CVIEW_HELD).fresh(st, "shard_cviews")
+            cv.entry_seq = cv.seq
+            rest = Rest(st, "shard_tail")
+            st.assume(both(r >= 0, self.n == 1 + rest.n, self.rows == r + rest.rows, self.cols == cviews_width(cv)))
+            self.unfolded = ((r, cv), rest)
+        return self.unfolded
+
+
+def _explicit(items):
+    for it in items:
+        if not (isinstance(it, tuple) and len(it) == 2 and isinstance(it[1], LRef)):
+            raise Unsupported(f"a shard that is not (rows, list of cviews): {it!r}")
+    return tuple(items)
+
+
+def _known_int(st, x, what, hi=4):
+    """The integer that x provably equals on this path (slice bounds of `shards[1:]` come as imin(1, len))."""
+    if isinstance(x, int):
+        return x
+    for c in range(hi + 1):
+        r, _m = st._check(V._z(x) != c, st.cfg.branch_timeout_ms)
+        if r == z3.unsat:
+            return c
+    raise Unsupported(f"{what} of a shard-list slice is not a known small constant on this path")
+
+
+class ShardSeq(Q.SSeq):
+    """Value (immutable) of a shard list: pre ++ rest ++ post."""
+
+    def __init__(self, pre, rest, post):
+        self.pre, self.rest, self.post = _explicit(pre), rest, _explicit(post)
+        n = len(self.pre) + len(self.post)
+        super().__init__(n if rest is None else n + rest.n, self._get, None, None, "shards")
+
+    def norm(self):
+        """The same value with every shard of the tail that has been spelled out so far made explicit."""
+        pre, rest = list(self.pre), self.rest
+        while rest is not None and rest.unfolded is not None:
+            pre.append(rest.unfolded[0])
+            rest = rest.unfolded[1]
+        return pre, rest, list(self.post)
+
+    def _get(self, i):
+        st = cur()
+        if not isinstance(i, int) or i < 0:
+            i = _known_int(st, i, "the index")
+        while True:
+            pre, rest, post = self.norm()
+            if i < len(pre):
+                return pre[i]
+            if rest is not None and st.branch(rest.n > 0):
+                rest.unfold()
+                continue
+            k = i - len(pre)
+            if k < len(post):
+                return post[k]
+            raise Unsupported("shard index beyond the shards that are spelled out")
+
+    def model_get(self, model, i):
+        return f"<shard {i}>"
+
+    def slice_model(self, lo, hi):
+        st = cur()
+        lo_c = _known_int(st, lo, "the lower bound")
+        r, _m = st._check(V._z(hi) != V._z(self.length), st.cfg.branch_timeout_ms)
+        if r != z3.unsat:
+            raise Unsupported("shard-list slice that does not run to the end of the list")
+        pre, rest, post = self.norm()
+        for _ in range(lo_c):
+            if pre:
+                pre.pop(0)
+            elif rest is not None:
+                r, _m = st._check(V._z(rest.n) <= 0, st.cfg.branch_timeout_ms)
+                if r != z3.unsat:
+                    raise Unsupported("slice of a shard list whose tail may be empty")
+                rest = rest.unfold()[1]
+            elif post:
+                post.pop(0)
+        return ShardSeq(pre, rest, post) if rest is not None else _explicit(pre + post)
+
+    def concat_model(self, other, left):
+        if isinstance(other, (tuple, list)):
+            o = (list(_explicit(other)), None, [])
+        elif isinstance(other, ShardSeq):
+            o = other.norm()
+        else:
+            raise Unsupported(f"concatenation of a shard list and {type(other).__name__}")
+        a, b = (self.norm(), o) if left else (o, self.norm())
+        if a[1] is not None and b[1] is not None:
+            raise Unsupported("concatenation of two shard lists with unknown tails")
+        if a[1] is None:
+            return ShardSeq(a[0] + a[2] + b[0], b[1], b[2])
+        return ShardSeq(a[0], a[1], a[2] + b[0] + b[2])
+
+
+class _ShardsShape(S.Shape):
+    """A shard list about which nothing is known: a new list object holding an unknown tail."""
+
+    def fresh(self, st, hint):
+        return LRef(ShardSeq((), Rest(st, hint), ()))
+
+    def __repr__(self):
+        return "Shards"
+
+
+SHARDS = _ShardsShape()
+
+
+def _parts(sh, entry=False):
+    if isinstance(sh, LRef):
+        sh = sh.seq
+    if isinstance(sh, (tuple, list)):
+        return list(_explicit(sh)), None, []
+    if isinstance(sh, ShardSeq):
+        return (list(sh.pre), sh.rest, list(sh.post)) if entry else sh.norm()
+    raise Unsupported(f"not a shard list: {sh!r}")
 
 
 def rows_of(sh):
-    if isinstance(sh, LRef):
-        if sh.seq == ():
-            return 0
-        raise Unsupported("rows_of a concrete shard list")
-    cur().assume(_ROWS(sh.e) >= 0)
-    return V.mk_int(_ROWS(sh.e))
+    """sum(r for r, cv in shards): CompositeCanvas.rows()."""
+    pre, rest, post = _parts(sh)
+    t = 0
+    for r, _cv in pre + post:
+        t = t + r
+    return t if rest is None else t + rest.rows
 
 
-def cols_of(sh):
-    if isinstance(sh, LRef):
-        if sh.seq == ():
-            return 0
-        raise Unsupported("cols_of a concrete shard list")
-    cur().assume(_COLS(sh.e) >= 0)
-    return V.mk_int(_COLS(sh.e))
+def cols_of(sh, entry=False):
+    """sum(cv[2] for cv in shards[0][1]) if shards else 0: CompositeCanvas.cols().  entry=True: judged by the
+    content the first shard's cview list had when it was first seen."""
+    pre, rest, post = _parts(sh, entry)
+    if pre:
+        return cviews_width(pre[0][1], entry)
+    after = cviews_width(post[0][1], entry) if post else 0
+    return after if rest is None else ite(rest.n > 0, rest.cols, after)
+
+
+def no_shards(sh):
+    n = Q.seq_len(sh)
+    return n == 0 if isinstance(n, int) else V._cmp("==", n, 0)
+
+
+# ---- aliasing / frame: the list objects the canvas held at entry (which it may share with the canvas it wraps:
+# CompositeCanvas.__init__ does `self.shards = canv.shards`) are never written to
+
+
+def _mark_entry(st, self_obj, vals):
+    l = self_obj.fields["shards"]
+    st.ghost["entry"] = _View(dict(lref=l, seq=l.seq, serial=LRef.serial_counter))
+
+
+def _entry_cview_lists(seq):
+    pre, rest, post = _parts(seq)  # incl. every shard of the entry tail that was spelled out during the run
+    return [cv for _r, cv in pre + post]
+
+
+def operand_clauses(s):
+    ent = cur().ghost["entry"]
+    yield "operand-shard-list-is-not-written-to", ent.lref.seq is ent.seq
+    yield "operand-cview-lists-are-not-written-to", all(cv.seq is getattr(cv, "entry_seq", cv.seq) for cv in _entry_cview_lists(ent.seq))
+    now = s.fields["shards"]
+    yield "shard-list-is-the-one-held-before-or-a-newly-built-one", isinstance(now, LRef) and (now is ent.lref or now.serial > ent.serial)
 
 
 def _fresh_coords(st, hint):
@@ -143,14 +344,14 @@ def _fresh_coords(st, hint):
     return DRef(d)
 
 
-REAL_CC = Obj(_canvas.CompositeCanvas, dict(shards=Opaque("Shards"), coords=S.Custom(_fresh_coords, "coords"), _widget_info=Opt(Opaque("WidgetInfo"))))
+REAL_CC = Obj(_canvas.CompositeCanvas, dict(shards=SHARDS, coords=S.Custom(_fresh_coords, "coords"), _widget_info=Opt(Opaque("WidgetInfo"))))
 
 
-def absview(o):
-    """The protocol model's fields, read off the real ones."""
+def absview(o, entry=False):
+    """The protocol model's fields, read off the real ones (entry=True: of the snapshot taken at entry)."""
     c = o.coords.d.get("cursor")
     cursor = SOpt(z3.BoolVal(c is None), (c[0], c[1]) if c is not None else (0, 0))
-    return _View(dict(ncols=cols_of(o.shards), nrows=rows_of(o.shards), cursor=cursor, top_off=0, left_off=0, noshards=False))
+    return _View(dict(ncols=cols_of(o.shards, entry), nrows=rows_of(o.shards), cursor=cursor, top_off=0, left_off=0, noshards=no_shards(o.shards)))
 
 
 def popup_moved(old, s, dx, dy):
@@ -161,7 +362,7 @@ def popup_moved(old, s, dx, dy):
 
 
 def _protocol_clauses(proto, old, s, a2, result, skip=("window",)):
-    for label, fml in proto._gen(proto.ensures(absview(old), absview(s), a2, result)):
+    for label, fml in proto._gen(proto.ensures(absview(old, True), absview(s), a2, result)):
         if label not in skip:
             yield label, fml
 
@@ -177,28 +378,58 @@ from pyvc.api import REGISTRY as _REG  # noqa: E402
 _saved = {k: _REG[k] for k in (CV + "CompositeCanvas.rows", CV + "CompositeCanvas.cols")}  # the protocol-model contracts
 
 
-@contract(CV + "CompositeCanvas.rows", property=(), assumed=True, notes="abstraction: rows() is the observer rows_of of the opaque shard list (sum of the shard heights)")
+@contract(CV + "CompositeCanvas.rows", property=(), assumed=True,
+          notes="abstraction: rows() is the observer rows_of of the shard list = heights of the shards that are spelled out + the observer "
+                "`rows` of the unknown tail (its body iterates over the whole list, which the head/tail abstraction cannot; verified for a "
+                "single-shard canvas as CompositeCanvas.rows#single-shard)")
 class real_rows:
     self_shape = REAL_CC
     result = Nat
     pure_spec = staticmethod(lambda old, a: rows_of(old.shards))
 
 
-@contract(CV + "CompositeCanvas.cols", property=(), assumed=True, notes="abstraction: cols() is the observer cols_of of the opaque shard list (sum of the first shard's cview widths; 0 for [])")
+def _cview_width_sums(ip, st, e, fr, seq):
+    """`cv[2] for cv in <cview list>`: its partial sums are the prefix sums of component 2 (list-theory model field)."""
+    import ast
+
+    g = e.generators[0]
+    if isinstance(e.elt, ast.Subscript) and isinstance(e.elt.value, ast.Name) and isinstance(g.target, ast.Name) and e.elt.value.id == g.target.id and isinstance(e.elt.slice, ast.Constant) and e.elt.slice.value == 2:
+        return Q.seq_cpsum(seq, 2)
+    return None
+
+
+@contract(CV + "CompositeCanvas.cols", property=("C02", "C01"), replayable=False, comprehension_sum=_cview_width_sums)
 class real_cols:
+    """cols() over the real fields: 0 for no shards, else the sum of the widths of the first shard's cviews -- the
+    definition of the observer cols_of, which is what callers (contract_overrides) get."""
     self_shape = REAL_CC
     result = Nat
+    raises = ()
     pure_spec = staticmethod(lambda old, a: cols_of(old.shards))
 
+    def ensures(old, s, a, result):
+        yield "zero-without-shards", implies(no_shards(old.shards), result == 0)
+        yield "width-of-the-first-shard", result == cols_of(old.shards)
+        yield "reads-only", s.fields["shards"].seq is old.fields["shards"].seq  # (the snapshot shares the immutable content value)
 
-# the two contracts above are used through `contract_overrides` only: the registry keeps the protocol-model ones
+
+def old_entry():
+    return cur().ghost["entry"]
+
+
+# the protocol-model contracts stay in the registry for the container proofs; the real-field ones are used through
+# `contract_overrides` and verified under their own keys
+_REG[CV + "CompositeCanvas.cols#real-fields"] = real_cols
 _REG.update(_saved)
 
+_NEW = ("the returned list is newly built (never the argument list object), and so are the cview lists of the shards it spells out "
+        "(shards_trim_top: only the first shard's; the later shard tuples are shared with the argument and nothing under contract writes to them)")
 
-@contract(CV + "shards_trim_top", property=(), assumed=True, notes="shard algebra (generator-driven, outside the subset): removes the top `top` rows, keeps the width; ValueError/CanvasError unless 0 < top < rows (call-pre)")
+
+@contract(CV + "shards_trim_top", property=(), assumed=True, notes="shard algebra (generator-driven, outside the subset): removes the top `top` rows, keeps the width; ValueError/CanvasError unless 0 < top < rows (call-pre); " + _NEW)
 class a_shards_trim_top:
-    params = dict(shards=Opaque("Shards"), top=Int)
-    result = Opaque("Shards")
+    params = dict(shards=SHARDS, top=Int)
+    result = SHARDS
 
     def requires(a):
         return both(a.top > 0, a.top < rows_of(a.shards))
@@ -208,10 +439,10 @@ class a_shards_trim_top:
         yield "cols", cols_of(r) == cols_of(a.shards)
 
 
-@contract(CV + "shards_trim_rows", property=(), assumed=True, notes="shard algebra: the topmost keep_rows rows (all of them when there are fewer); [] (no rows, no columns) for keep_rows == 0; ValueError for keep_rows < 0")
+@contract(CV + "shards_trim_rows", property=(), assumed=True, notes="shard algebra: the topmost keep_rows rows (all of them when there are fewer); [] (no rows, no columns) for keep_rows == 0; ValueError for keep_rows < 0; " + _NEW)
 class a_shards_trim_rows:
-    params = dict(shards=Opaque("Shards"), keep_rows=Int)
-    result = Opaque("Shards")
+    params = dict(shards=SHARDS, keep_rows=Int)
+    result = SHARDS
     raises_iff = {ValueError: lambda a: a.keep_rows < 0}
 
     def ensures(a, r):
@@ -219,10 +450,10 @@ class a_shards_trim_rows:
         yield "cols", cols_of(r) == ite(rows_of(r) == 0, 0, cols_of(a.shards))
 
 
-@contract(CV + "shards_trim_sides", property=(), assumed=True, notes="shard algebra: columns [left, left+cols) of every row; ValueError unless left >= 0 and cols > 0 (call-pre); the range must lie inside the canvas")
+@contract(CV + "shards_trim_sides", property=(), assumed=True, notes="shard algebra: columns [left, left+cols) of every row; ValueError unless left >= 0 and cols > 0 (call-pre); the range must lie inside the canvas; " + _NEW)
 class a_shards_trim_sides:
-    params = dict(shards=Opaque("Shards"), left=Int, cols=Int)
-    result = Opaque("Shards")
+    params = dict(shards=SHARDS, left=Int, cols=Int)
+    result = SHARDS
 
     def requires(a):
         return both(a.left >= 0, a.cols > 0, a.left + a.cols <= cols_of(a.shards))
@@ -232,7 +463,6 @@ class a_shards_trim_sides:
         yield "cols", cols_of(r) == a.cols
 
 
-_saved2 = {k: _REG[k] for k in (CV + "CompositeCanvas.trim", CV + "CompositeCanvas.trim_end")}  # cc_trim, cc_trim_end (assumed, used by callers)
 _OV = {CV + "CompositeCanvas.rows": real_rows, CV + "CompositeCanvas.cols": real_cols, CV + "Canvas.rows": real_rows, CV + "Canvas.cols": real_cols}
 _INL = ("Canvas.widget_info", "Canvas.translate_coords", "CompositeCanvas._discard_trimmed_cursor")
 
@@ -246,37 +476,63 @@ def _forced(a, *names):
     return _View(d)
 
 
-@contract(CV + "CompositeCanvas.trim", property=("C02", "C01"), inline=_INL, contract_overrides=_OV, missing_field=_finalized_error, replayable=False)
+def _unchanged(old, s):
+    """A refused call leaves the canvas as it was: same list object with the same content, same coords."""
+    ent = old_entry()
+    return both(s.fields["shards"] is ent.lref, ent.lref.seq is ent.seq, s.coords.d == old.coords.d)
+
+
+def _havoc_shards_and_coords(self, st, obj):
+    """Callee use of a real-field contract (pad_trim_top_bottom calls self.trim): `shards` afterwards is either the
+    very list object held before, content untouched, or a new list object -- the two cases the verified clauses
+    `shard-list-is-the-one-held-before-or-a-newly-built-one` + `operand-shard-list-is-not-written-to` allow."""
+    before = obj.fields["shards"]
+    Contract.havoc(self, st, obj)
+    if st.fork(2) == 1:
+        obj.fields["shards"] = before
+
+
+_MUT = dict(modifies=("shards", "coords"), havoc=_havoc_shards_and_coords)
+
+
+@contract(CV + "CompositeCanvas.trim", property=("C02", "C01"), alias="real-fields", inline=_INL, contract_overrides=_OV, missing_field=_finalized_error, replayable=False, **_MUT)
 class real_trim:
     self_shape = REAL_CC
     params = dict(top=Int, count=Opt(Int))
     raises = (ValueError, _canvas.CanvasError)
+    setup = _mark_entry
 
     def requires(s, a):
         # exactly cc_trim's precondition (the call-pre obligation of every container proof)
         return PW.cc_trim.requires(absview(s), a)
 
     def ensures(old, s, a, result):
+        a2 = _forced(a, "top", "count")
         yield "returns-none", result is None
         yield "not-finalized", is_none(old._widget_info)
-        yield from _protocol_clauses(PW.cc_trim, old, s, _forced(a, "top", "count"), result)
+        yield from _protocol_clauses(PW.cc_trim, old, s, a2, result)
+        # the frame of cc_trim says `ncols` stays; the real canvas forgets its width when no row is kept ([] has none)
+        yield "cols-kept-unless-no-row-is-kept", cols_of(s.shards) == (ite(a2.count == 0, 0, cols_of(old.shards, True)) if "count" in a2 else cols_of(old.shards, True))
         yield "pop-up-moves-with-the-content", popup_moved(old, s, 0, -a.top)
         yield "stays-unfinalized", is_none(s._widget_info)
+        if "entry" in cur().ghost:
+            yield from operand_clauses(s)
 
     def on_raise(old, s, a, exc):
         fin = not is_none(old._widget_info)
         cnt = cur().force(a.count)
         yield "canvas-error-iff-finalized", (exc.cls is _canvas.CanvasError) == fin
         yield "value-error-only-for-a-negative-count", implies(exc.cls is ValueError, cnt is not None and cnt < 0)
-        if fin:
-            yield "finalized-canvas-unchanged", both(eq(s.shards, old.shards), s.coords.d == old.coords.d)
+        if fin and "entry" in cur().ghost:
+            yield "finalized-canvas-unchanged", _unchanged(old, s)
 
 
-@contract(CV + "CompositeCanvas.trim_end", property=("C02", "C01"), inline=_INL, contract_overrides=_OV, missing_field=_finalized_error, replayable=False)
+@contract(CV + "CompositeCanvas.trim_end", property=("C02", "C01"), alias="real-fields", inline=_INL, contract_overrides=_OV, missing_field=_finalized_error, replayable=False, **_MUT)
 class real_trim_end:
     self_shape = REAL_CC
     params = dict(end=Int)
     raises = (_canvas.CanvasError,)
+    setup = _mark_entry
 
     def requires(s, a):
         return PW.cc_trim_end.requires(absview(s), a)
@@ -285,15 +541,387 @@ class real_trim_end:
         yield "returns-none", result is None
         yield "not-finalized", is_none(old._widget_info)
         yield from _protocol_clauses(PW.cc_trim_end, old, s, a, result)
+        yield "cols-kept-unless-no-row-is-kept", cols_of(s.shards) == ite(a.end == rows_of(old.shards), 0, cols_of(old.shards, True))
         yield "pop-up-stays", popup_moved(old, s, 0, 0)
+        if "entry" in cur().ghost:
+            yield from operand_clauses(s)
 
     def on_raise(old, s, a, exc):
         yield "canvas-error-iff-finalized", not is_none(old._widget_info)
-        yield "finalized-canvas-unchanged", both(eq(s.shards, old.shards), s.coords.d == old.coords.d)
+        if "entry" in cur().ghost:
+            yield "finalized-canvas-unchanged", _unchanged(old, s)
 
 
-# callers keep using the protocol-model contracts (CCANVAS fields); the two verification tasks above live under
-# their own registry keys (same target function)
-for _k, _c in ((CV + "CompositeCanvas.trim", real_trim), (CV + "CompositeCanvas.trim_end", real_trim_end)):
-    _REG[_k + "#real-fields"] = _c
-_REG.update(_saved2)
+def _is_pad(cv, width, height):
+    """cv is the cview (0, 0, width, height, None, blank_canvas) -- padding shows the whole of the size-less blank canvas."""
+    if not (isinstance(cv, tuple) and len(cv) == 6):
+        return False
+    return both(cv[0] == 0, cv[1] == 0, cv[2] == width, cv[3] == height, V.opt_isnone(cv[4]), cv[5] is _canvas.blank_canvas or eq(cv[5], _canvas.blank_canvas))
+
+
+def _built_by_the_call(cv_list):
+    return getattr(cv_list, "entry_seq", None) is None  # cview lists of the tail get `entry_seq` when they are spelled out
+
+
+# ---- pad_trim_left_right / pad_trim_top_bottom over the real fields: exactly the clauses of the assumed cc_ptlr / cc_pttb
+# (cols / rows, cursor moves with its cell or goes with it; `window` is a ghost of the protocol model) + the frame of
+# the protocol model (`modifies`) + operands unchanged + a finalized canvas refuses
+
+
+@contract(CV + "CompositeCanvas.pad_trim_left_right", property=("C02", "C01"), alias="real-fields", inline=_INL, contract_overrides=_OV, missing_field=_finalized_error, replayable=False, **_MUT)
+class real_ptlr:
+    self_shape = REAL_CC
+    params = dict(left=Int, right=Int)
+    raises = (_canvas.CanvasError,)
+    setup = _mark_entry
+
+    def requires(s, a):
+        # exactly cc_ptlr's precondition: trimming leaves a column, padding needs a shard to pad
+        return PW.cc_ptlr.requires(absview(s), a)
+
+    def ensures(old, s, a, result):
+        yield "returns-none", result is None
+        yield "not-finalized", is_none(old._widget_info)
+        yield from _protocol_clauses(PW.cc_ptlr, old, s, a, result)
+        yield "rows-kept", rows_of(s.shards) == rows_of(old.shards)
+        # what is added is padding that runs down the whole canvas, put around the first shard's own cviews
+        if cur().branch(either(a.left > 0, a.right > 0)):
+            head = _parts(s.shards)[0][0][1]
+            n = Q.seq_len(head)
+            if cur().branch(a.left > 0):
+                yield "left-padding-cview-spans-the-canvas", _is_pad(Q.seq_get(head, 0), a.left, rows_of(old.shards))
+            if cur().branch(a.right > 0):
+                yield "right-padding-cview-spans-the-canvas", _is_pad(Q.seq_get(head, n - 1), a.right, rows_of(old.shards))
+            yield "nothing-else-is-added", cviews_width(head) - ite(a.left > 0, a.left, 0) - ite(a.right > 0, a.right, 0) == cols_of(old.shards, True) + imin(a.left, 0) + imin(a.right, 0)
+        yield "pop-up-moves-with-the-content", popup_moved(old, s, a.left, 0)
+        yield "stays-unfinalized", is_none(s._widget_info)
+        yield from operand_clauses(s)
+
+    def on_raise(old, s, a, exc):
+        yield "canvas-error-iff-finalized", not is_none(old._widget_info)
+        yield "finalized-canvas-unchanged", _unchanged(old, s)
+
+
+_OV_TB = dict(_OV)
+_OV_TB[CV + "CompositeCanvas.trim"] = real_trim
+
+
+@contract(CV + "CompositeCanvas.pad_trim_top_bottom", property=("C02", "C01"), alias="real-fields", inline=_INL, contract_overrides=_OV_TB, missing_field=_finalized_error, replayable=False, **_MUT)
+class real_pttb:
+    self_shape = REAL_CC
+    params = dict(top=Int, bottom=Int)
+    raises = (_canvas.CanvasError,)
+    setup = _mark_entry
+
+    def requires(s, a):
+        return PW.cc_pttb.requires(absview(s), a)
+
+    def ensures(old, s, a, result):
+        yield "returns-none", result is None
+        yield "not-finalized", is_none(old._widget_info)
+        yield from _protocol_clauses(PW.cc_pttb, old, s, a, result)
+        # the frame of cc_pttb says `ncols` stays: so it does (the width is read before trimming, /repo ccfe065) unless the
+        # trim keeps no row and nothing is padded back: a canvas without shards has no width
+        none_left = both(either(a.top < 0, a.bottom < 0), rows_of(s.shards) == 0)
+        yield "cols-kept-unless-no-row-is-left", cols_of(s.shards) == ite(none_left, 0, cols_of(old.shards, True))
+        # the shards the call adds are padding as wide as the canvas was (also when nothing of it is left)
+        pre, _rest, post = _parts(s.shards)
+        added = [(r, cv) for r, cv in pre + post if _built_by_the_call(cv)]
+        yield "adds-exactly-the-padding-shards", len(added) == (1 if cur().branch(a.top > 0) else 0) + (1 if cur().branch(a.bottom > 0) else 0)
+        for r, cv in added:
+            yield "padding-shard-is-as-wide-as-the-canvas", both(Q.seq_len(cv) == 1, _is_pad(Q.seq_get(cv, 0), cols_of(old.shards, True), r))
+        yield "pop-up-moves-with-the-content", popup_moved(old, s, 0, a.top)
+        yield "stays-unfinalized", is_none(s._widget_info)
+        yield from operand_clauses(s)
+
+    def on_raise(old, s, a, exc):
+        yield "canvas-error-iff-finalized", not is_none(old._widget_info)
+        yield "finalized-canvas-unchanged", _unchanged(old, s)
+
+
+# ---- CompositeCanvas.__init__ over the real fields: wrapping shows the wrapped canvas unchanged, leaves the operand
+# unchanged, and shares with it only what no operation under contract ever writes to (the shard list: see the
+# `operand-...-not-written-to` clauses above); coords / shortcuts / children are new objects
+
+
+def _fresh_shortcuts(st, hint):
+    return DRef({} if st.fork(2) == 0 else {"k": "pos"})
+
+
+# a canvas that already has shards (a CompositeCanvas) / a leaf canvas known through rows() and cols() (canvas protocol)
+WRAPPED_CC = Obj(_canvas.CompositeCanvas, dict(shards=SHARDS, coords=S.Custom(_fresh_coords, "coords"), shortcuts=S.Custom(_fresh_shortcuts, "shortcuts"), _widget_info=Opt(Opaque("WidgetInfo"))))
+WRAPPED_LEAF = Obj(_canvas.Canvas, dict(nrows=Nat, ncols=Nat, coords=S.Custom(_fresh_coords, "coords"), shortcuts=S.Custom(_fresh_shortcuts, "shortcuts"), _widget_info=Opt(Opaque("WidgetInfo"))))
+
+
+def _mark_wrapped(st, self_obj, vals):
+    c = vals["canv"]
+    if isinstance(c, Q.SObj):
+        sh = c.fields.get("shards")
+        st.ghost["wrapped"] = _View(dict(obj=c, shards=sh, seq=sh.seq if sh is not None else None, coords=c.fields["coords"], coords_d=dict(c.fields["coords"].d),
+                                         shortcuts=c.fields["shortcuts"], shortcuts_d=dict(c.fields["shortcuts"].d), fields=dict(c.fields)))
+
+
+@contract(CV + "CompositeCanvas.__init__", property=("C02", "C01"), alias="real-fields", inline=("Canvas.__init__",), replayable=False)
+class real_cc_init:
+    self_shape = Obj(_canvas.CompositeCanvas, {})
+    params = dict(canv=Union(Const(None), WRAPPED_CC, WRAPPED_LEAF))
+    raises = ()
+    setup = _mark_wrapped
+
+    def ensures(old, s, a, result):
+        f = s.fields
+        yield "returns-none", result is None
+        yield "not-finalized", f["_widget_info"] is None
+        if a.canv is None:
+            yield "empty", both(isinstance(f["shards"], LRef) and f["shards"].seq == (), f["coords"].d == {}, f["shortcuts"].d == {}, f["children"].seq == ())
+            return
+        w = cur().ghost["wrapped"]
+        if w.shards is not None:
+            yield "shows-the-wrapped-canvas", f["shards"] is w.shards  # the very shard list: same rows, same columns, same content
+            rows, cols = rows_of(w.shards), cols_of(w.shards)
+        else:
+            rows, cols = a.canv.nrows, a.canv.ncols
+            sh = f["shards"]
+            one = isinstance(sh, LRef) and isinstance(sh.seq, tuple) and len(sh.seq) == 1 and isinstance(sh.seq[0][1].seq, tuple) and len(sh.seq[0][1].seq) == 1
+            yield "one-shard-with-one-cview", one
+            cv = sh.seq[0][1].seq[0]
+            yield "shows-the-whole-wrapped-canvas", both(sh.seq[0][0] == rows, cv[0] == 0, cv[1] == 0, cv[2] == cols, cv[3] == rows, cv[4] is None, cv[5] is a.canv)
+        yield "size", both(rows_of(f["shards"]) == rows, cols_of(f["shards"]) == cols)
+        yield "cursor-and-pop-up-as-in-the-wrapped-canvas", f["coords"].d == w.coords_d
+        yield "coords-are-a-copy", f["coords"] is not w.coords
+        yield "shortcuts-lead-into-the-wrapped-canvas", both(f["shortcuts"] is not w.shortcuts, f["shortcuts"].d == {k: "wrap" for k in w.shortcuts_d})
+        ch = f["children"]
+        yield "the-wrapped-canvas-is-the-only-child", isinstance(ch, LRef) and isinstance(ch.seq, tuple) and len(ch.seq) == 1 and ch.seq[0][:2] == (0, 0) and ch.seq[0][2] is a.canv and ch.seq[0][3] is None
+        # the operand is left as it was: no field assigned, its lists and dicts not written to
+        yield "operand-unchanged", both(all(a.canv.fields.get(k) is v for k, v in w.fields.items()) and len(a.canv.fields) == len(w.fields),
+                                        w.coords.d == w.coords_d, w.shortcuts.d == w.shortcuts_d, w.shards is None or w.shards.seq is w.seq)
+
+
+# ---- CompositeCanvas.rows over the real fields, for shard lists that are spelled out completely (0 .. 3 shards, e.g.
+# the single shard CompositeCanvas(leaf) builds, a padded single shard): the body iterates over the whole list, so the
+# unknown tail is out of reach; for these lists rows() is the observer rows_of that `real_rows` assumes in general
+
+
+def _fresh_spelled_out(st, hint):
+    k = st.fork(4)
+    shards = []
+    for i in range(k):
+        r = st.fresh_int(f"rows{i}")
+        st.assume(r >= 0)
+        cv = ListOf(CVIEW_HELD).fresh(st, f"cviews{i}")
+        cv.entry_seq = cv.seq
+        shards.append((r, cv))
+    return LRef(tuple(shards))
+
+
+@contract(CV + "CompositeCanvas.rows", property=("C02", "C01"), alias="spelled-out-shards", replayable=False)
+class rows_spelled_out:
+    self_shape = Obj(_canvas.CompositeCanvas, dict(shards=S.Custom(_fresh_spelled_out, "shards")))
+    result = Nat
+    raises = ()
+
+    def ensures(old, s, a, result):
+        yield "sum-of-the-shard-heights", result == rows_of(old.shards)
+        yield "reads-only", s.fields["shards"].seq is old.fields["shards"].seq
+
+
+# ---- SolidCanvas over the real fields: __init__ (against the assumed canvas-protocol `solid_init`: size as given, no
+# cursor), cols / rows.  `content` is a generator (outside the subset): bounded check.
+from contracts import C11_width as W11  # noqa: E402
+from pyvc.api import Text  # noqa: E402
+
+UT = "urwid/util.py:"
+CS_RLE = ListOf(Tup(Opt(Atom("0")), Int(0)))
+
+
+@contract(UT + "apply_target_encoding", property=(), assumed=True,
+          notes="codecs / str.translate / bytes.split (outside the subset): returns (encoded bytes, charset run-length list). Trusted here: a text that has "
+                "a character of non-zero column width yields a non-empty run-length list -- the only bytes dropped are the shift controls SO / SI, whose "
+                "width is 0 (wcwidth -1, clamped), and the codec's error handler 'urwid_replace' substitutes '?' rather than dropping")
+class a_apply_target_encoding:
+    params = dict(s=Text("str"))
+    result = Tup(Text("bytes"), CS_RLE)
+
+    def ensures(a, r):
+        yield "visible-text-has-a-charset-run", implies(W11.W(a.s, W11.tlen(a.s)) - W11.W(a.s, 0) >= 1, Q.seq_len(r[1]) >= 1)
+
+
+SOLID = Obj(_canvas.SolidCanvas, {})
+
+
+@contract(CV + "SolidCanvas.__init__", property=("C02", "C01"), alias="real-fields", globals_=W11.ENC,
+          inline=("Canvas.__init__", "Canvas.set_cursor", "Canvas.widget_info"), replayable=False)
+class real_solid_init:
+    self_shape = SOLID
+    params = dict(fill_char=Text("str"), cols=Int, rows=Int)
+    raises = (ValueError,)
+
+    def ensures(old, s, a, result):
+        f = s.fields
+        t = a.fill_char
+        yield "returns-none", result is None
+        yield "fill-text-is-one-column-wide", exists_prefix_one_column(t)
+        # exactly the clause of the assumed `solid_init`: size as given, no cursor (and it is a leaf: no shards)
+        yield "size", both(f["size"][0] == a.cols, f["size"][1] == a.rows)
+        yield "no-cursor", "cursor" not in f["coords"].d
+        yield "a-leaf-not-finalized", "shards" not in f and f["_widget_info"] is None
+
+    def on_raise(old, s, a, exc):
+        # ValueError exactly when the text does not start with a run of characters one column wide in total
+        t = a.fill_char
+        yield "the-longest-prefix-within-one-column-is-narrower", neg(exists_prefix_one_column(t))
+
+
+def exists_prefix_one_column(t):
+    """Some prefix of t is exactly one column wide.  Stated through the SPECIFICATION of calc_text_pos(t, 0, len, 1)
+    (not through what the body computed): it stops at the longest prefix at most one column wide; if that one is
+    narrower than a column, every longer prefix is wider than one and every shorter one narrower."""
+    p, sc = W11.calc_text_pos.spec_value(None, text=t, start_offs=0, end_offs=W11.tlen(t), pref_col=1, g__byte_encoding=cur().ghost["globals"]["_byte_encoding"])
+    return sc == 1
+
+
+for _n, _i in (("cols", 0), ("rows", 1)):
+
+    @contract(CV + f"SolidCanvas.{_n}", property=("C02", "C01"), alias="real-fields", replayable=False)
+    class real_solid_dim:
+        self_shape = Obj(_canvas.SolidCanvas, dict(size=Tup(Int, Int)))
+        result = Int
+        raises = ()
+        _i = _i
+
+        def ensures(old, s, a, result, _i=_i):
+            yield "the-size-given-at-construction", both(result == old.size[_i], s.size[0] == old.size[0], s.size[1] == old.size[1])
+
+
+# ---- TextCanvas.__init__ over the real fields, for canvases of 0 or 1 row (`#up-to-one-row`) and of 2 rows with attr / cs given,
+# check_width on and no cursor (`#two-rows`).  The two loops treat every row alike, so these instances put the loop BODY under
+# contract for an arbitrary row (abstract bytes text of any length and width, run-length lists of any length); a
+# list of abstract texts of SYMBOLIC length is out of the engine's reach (no Text element shape in seqs.fresh_seq; the
+# column functions COL / BND of contracts/C11_width.py are keyed by one text's name), which is why the number of rows is
+# fixed per instance.  Rows, padding and run lengths are judged against the specification of calc_width (C11).
+from contracts import C02_rle as RL  # noqa: E402
+from pyvc.text import SConst, SRepeat, SText as _SText  # noqa: E402
+
+
+def _rjust_of_empty(ip, st, f, args, kwargs):
+    """b"".rjust(n): n spaces (none for n <= 0) -- CPython's bytes.rjust pads with b" " up to the width; cross-checked
+    by the static check below."""
+    if getattr(f, "__name__", "") == "rjust" and getattr(f, "__self__", None) == b"" and len(args) == 1 and not kwargs:
+        return SRepeat(SConst(b" "), args[0])
+    return NotImplemented
+
+
+def _xcheck_rjust():
+    bad = [n for n in range(-4, 9) if b"".rjust(n) != b" " * max(n, 0)]
+    return "bytes-rjust-of-empty-agrees-with-cpython", not bad, f"b''.rjust(n) == b' ' * max(n, 0) for n in -4..8; mismatches: {bad}"
+
+
+# attribute / charset values: None or any value; Python constants (the 0 / "U" the code may put there) are individuals too
+TC_RLE = RL.RUNS(0, Opt(Opaque("Attr", lit=(int, str, bytes))))
+
+
+def _tc_setup(nrows_choices, all_given):
+    def setup(st, self_obj, vals):
+        k = nrows_choices[st.fork(len(nrows_choices))]
+        rows = [Text("bytes").fresh(st, f"row{i}") for i in range(k)]
+        text_none = k == 0 and not all_given and st.fork(2) == 1
+        vals["text"] = None if text_none else LRef(tuple(rows))
+        for name in ("attr", "cs"):
+            none = not all_given and st.fork(2) == 1
+            vals[name] = None if none else LRef(tuple(TC_RLE.fresh(st, f"{name}{i}") for i in range(k)))
+        if all_given:
+            # (maxcol stays optional: `max(widths)` over two rows is only reached without it)
+            vals["check_width"] = True
+            vals["cursor"] = None
+        st.ghost["tc"] = _View(dict(k=k, rows=rows, text=vals["text"], attr=vals["attr"], cs=vals["cs"],
+                                    attr0=[r.seq for r in vals["attr"].seq] if vals["attr"] is not None else None,
+                                    cs0=[r.seq for r in vals["cs"].seq] if vals["cs"] is not None else None))
+
+    return setup
+
+
+from pyvc.engine import PathEnd  # noqa: E402
+
+
+def row_width(t, enc):
+    """calc_width(t, 0, len(t)) by its specification (contracts/C11_width.py): column difference in utf-8, one column a byte otherwise."""
+    return ite(enc == "utf8", W11.COL(t, W11.tlen(t)) - W11.COL(t, 0), W11.tlen(t))
+
+
+def _tc_requires(s, a):
+    # as calc_width's own precondition: the double-byte ("wide") encodings are decided by the bounded check
+    return neg(a.g__byte_encoding == "wide")
+
+
+def _tc_maxcol(a, tc, widths):
+    mc = cur().force(a.maxcol)
+    if mc is not None:
+        return mc
+    return imax(*widths) if len(widths) > 1 else (widths[0] if widths else 0)
+
+
+def _tc_ensures(old, s, a, result):
+    tc = cur().ghost["tc"]
+    f = s.fields
+    cw = a.check_width if isinstance(a.check_width, bool) else bool(a.check_width)
+    yield "returns-none", result is None
+    yield "a-width-to-trust-was-given", cw or cur().force(a.maxcol) is not None  # (TypeError otherwise)
+    text = f["_text"]
+    yield "as-many-rows-as-lines-of-text", isinstance(text, LRef) and isinstance(text.seq, tuple) and len(text.seq) == tc.k
+    mc_given = cur().force(a.maxcol)
+    widths = [row_width(t, a.g__byte_encoding) if cw else mc_given for t in tc.rows]
+    maxcol = _tc_maxcol(a, tc, widths)
+    yield "width-is-maxcol-or-the-widest-line", f["_maxcol"] == maxcol
+    for j, t0 in enumerate(tc.rows):
+        t1 = text.seq[j]
+        pad = maxcol - widths[j]
+        p = V.arbitrary(f"pos{j}")
+        yield f"row-{j}-fits", pad >= 0
+        yield f"row-{j}-is-the-line-padded-with-spaces-to-maxcol", both(W11.tlen(t1) == W11.tlen(t0) + pad,
+                                                                        implies(both(0 <= p, p < W11.tlen(t0)), t1.get(p) == t0.get(p)),
+                                                                        implies(both(W11.tlen(t0) <= p, p < W11.tlen(t1)), t1.get(p) == 32))
+        yield f"row-{j}-attribute-runs-cover-the-row", RL.total(f["_attr"].seq[j]) == W11.tlen(t1)
+        yield f"row-{j}-charset-runs-cover-the-row", RL.total(f["_cs"].seq[j]) == W11.tlen(t1)
+        for name, before in (("_attr", tc.attr0), ("_cs", tc.cs0)):
+            if before is not None:
+                L0 = RL.total(before[j])
+                q = V.arbitrary(f"{name}pos{j}")
+                yield f"row-{j}{name}-given-runs-do-not-extend-beyond-the-line", L0 <= W11.tlen(t1)  # (CanvasError otherwise)
+                yield f"row-{j}{name}-given-runs-kept-rest-is-none", both(implies(both(0 <= q, q < L0), RL.aeq(RL.at(f[name].seq[j], q), RL.at(before[j], q))),
+                                                                          implies(both(L0 <= q, q < W11.tlen(t1)), opt_isnone(RL.at(f[name].seq[j], q))))
+    cu = cur().force(a.cursor)
+    yield "cursor-as-given", (f["coords"].d.get("cursor") == (cu[0], cu[1], None)) if cu is not None else "cursor" not in f["coords"].d
+    yield "a-leaf-not-finalized", "shards" not in f and f["_widget_info"] is None
+
+
+def _tc_on_raise(old, s, a, exc):
+    tc = cur().ghost["tc"]
+    cw = a.check_width if isinstance(a.check_width, bool) else bool(a.check_width)
+    mc_given = cur().force(a.maxcol)
+    if exc.cls is TypeError:
+        yield "type-error-only-without-a-width-to-trust", (not cw) and mc_given is None
+        return
+    widths = [row_width(t, a.g__byte_encoding) if cw else mc_given for t in tc.rows]
+    maxcol = _tc_maxcol(a, tc, widths)
+    bad = False
+    for j, t0 in enumerate(tc.rows):
+        padded = W11.tlen(t0) + maxcol - widths[j]
+        bad = either(bad, widths[j] > maxcol,
+                     RL.total(tc.attr0[j]) > padded if tc.attr0 is not None else False, RL.total(tc.cs0[j]) > padded if tc.cs0 is not None else False)
+    yield "canvas-error-only-for-a-line-wider-than-maxcol-or-runs-longer-than-their-line", bad
+
+
+_TC_KW = dict(qf_branching=True, branch_timeout_ms=RL.QBT, cover_timeout_ms=RL.CVT, globals_=W11.ENC, inline=("Canvas.__init__", "Canvas.set_cursor", "Canvas.widget_info"), call_real=_rjust_of_empty, replayable=False,
+              no_xcheck="inputs are abstract texts", static_checks=[_xcheck_rjust])
+_TC_PARAMS = dict(text=Const(None), attr=Const(None), cs=Const(None), cursor=Opt(Tup(Int, Int)), maxcol=Opt(Int), check_width=Bool)
+
+for _alias, _rows, _all in (("up-to-one-row", (0, 1), False), ("two-rows", (2,), True)):
+
+    @contract(CV + "TextCanvas.__init__", property=("C02", "C01"), alias=_alias, setup=_tc_setup(_rows, _all), **_TC_KW)
+    class real_textcanvas_init:
+        self_shape = Obj(_canvas.TextCanvas, {})
+        params = _TC_PARAMS
+        raises = (_canvas.CanvasError, TypeError)
+        requires = _tc_requires
+        ensures = _tc_ensures
+        on_raise = _tc_on_raise
